@@ -119,6 +119,9 @@ def run(pm, ctx):
 
 # ---------------------------------------------------------------- R2 + template R5
 
+    ctx.import_rules(pm, 'C02', {'C02-R12'}, 'C17-R10',
+                     'the unwrap helpers of the IR peel exactly the wrappers their names say '
+                     '(shared with C02-R12)')
     from ..effects import run_decisions
     from ..ownership import OWN
     run_decisions(pm, ctx, 'C17-RD', OWN['C17'])
